@@ -203,6 +203,45 @@ def run_clause(which, T_, prop):
     K = 2 if T_ == "quick" else 4
     res = dict(violations=[], infra=[], samples=[], extracted=None, n_valid=0, n_queries=0, solver_s=0.0, n_shapes=0, n_paths=0, n_unsat=0, bounds={"units": K})
     os.makedirs(os.path.join(REPLAYS, prop), exist_ok=True)
+    # ---- stage 0 (not solver-decided; a guard that does not depend on the extractor; needs the helper hook, i.e. the helper itself):
+    # string literals of up to 2 units through the real printer and the real module writer, judged by node
+    guard_done = False
+    try:
+        gbin = build_driver(True)
+        UN = ["a", " ", "'", "\u00e9", '\\"', "\\\\", "\\n", "\\/", "\\u0041", "\\u0027", "\\u005c", "u", "x", "0", "\\t"]
+        graws = [""] + UN + [a + b for a in UN for b in UN]
+        for ctxname in CONTEXTS:
+            outs = run_driver(gbin, ctxname, graws)
+            mods = [o["module"] for o in outs]
+            if any(m is None for m in mods):
+                raise Inconclusive("helper missing")
+            judged = node_import(mods)
+            for raw, o, nj in zip(graws, outs, judged):
+                want = strip_continuations(o["text"])
+                bad = (not nj["ok"]) if which == "syntax" else (nj["ok"] and nj["value"] != want)
+                if bad:
+                    rp = os.path.join(REPLAYS, prop, "query_text_module_guard_%s" % which)
+                    os.makedirs(rp, exist_ok=True)
+                    with open(os.path.join(rp, "input.json"), "w") as f:
+                        f.write(json.dumps({"format": "pretty", "sel": CONTEXTS[ctxname](raw)}) + "\n")
+                    with open(os.path.join(rp, "module.mjs"), "w") as f:
+                        f.write(o["module"])
+                    with open(os.path.join(rp, "REPLAY.md"), "w") as f:
+                        f.write("Property %s (native guard): string literal \"%s\" (%s)\nreal module text (module.mjs):\n%s\nnode: %r\nprinted operation: %r\nRun: bash %s/replay.sh\n" % (prop, raw, ctxname, o["module"], nj, want, rp))
+                    with open(os.path.join(rp, "replay.sh"), "w") as f:
+                        f.write("#!/bin/bash\n%s < %s/input.json\nnode %s/module.mjs; exit 1\n" % (gbin, rp, rp))
+                    if which == "syntax":
+                        res["violations"].append(("native guard: the query_text module for the argument \"%s\" is not a well-formed module: %r -> %s" % (raw, o["module"], nj.get("error")), rp))
+                    else:
+                        res["violations"].append(("native guard: the query_text module for the argument \"%s\" evaluates to %r but the compiler printed %r" % (raw, nj["value"], want), rp))
+                    res["samples"].append({"string_literal_source": raw, "context": ctxname, "module": o["module"], "node": nj, "stage": "native guard"})
+                    raise StopIteration
+            guard_done = True
+        res["samples"].append({"native_guard_string_literals": len(graws) * len(CONTEXTS)})
+    except StopIteration:
+        pass
+    except Inconclusive:
+        pass            # without the helper (inline template) there is no real module writer to call; the decision below still runs
     X = extract()
     res["extracted"] = {k: v for k, v in X.items()}
     has_helper = any(t["kind"] == "helper" for t in X["templates"])
